@@ -157,6 +157,7 @@ ASSUME = {}
 RULES = {}
 
 DECODER_ASSUMPTIONS = [
+    'string/JSON annotation payloads carry the writer\'s {0,0x1f} terminator, i.e. one byte beyond data_size (accepted by the decoder)',
     'independent decoder takes the field order inside SOURCE_DEF/SIGNAL_DEF payloads, the {0,0x1f} string terminator and "FSR level-1 index offset 0 = omitted block" from the writer (format.h leaves them open); a symmetric deviation there is invisible',
     'the submission model regenerates sample/payload bytes from the same seeded generator that fed the API call',
 ]
